@@ -74,6 +74,14 @@ pub(crate) fn for_each_chunk<T, E>(
     let buffer = &mut buffer[..buffer_pixels * buffer_elements_per_pixel];
     let bytes_per_pixel = image.color().bytes_per_pixel() as usize;
 
+    #[cfg(dds_verif)]
+    crate::verif_hooks::block_event(&[4, buffer_pixels, image.is_contiguous() as usize]);
+    #[cfg(dds_verif)]
+    let mut process_chunk = |chunk: &mut [T]| {
+        crate::verif_hooks::block_event(&[5, chunk.len() / buffer_elements_per_pixel]);
+        process_chunk(chunk)
+    };
+
     if image.is_contiguous() {
         // Since the image is contiguous, we can process it in chunks directly
         for chunk in image.data().chunks(buffer_pixels * bytes_per_pixel) {
